@@ -458,6 +458,102 @@ R.contract(
     replayable=False,
 )
 
+
+# ------------------------------------------------------------------------------------------------- object / array negatives: "violates it in the way its description says"
+NegCtx = lambda: Obj(COV + "CoverageContext", location=Str, generation_modes=_NegOnly(), path=_FreshList())
+TemplateObj = DictOf(optional={"a": Opq("Value"), "b": Opq("Value"), "c": Opq("Value")})
+R.contract(
+    COV + "_negative_required",
+    prop="C03",
+    args={"ctx": NegCtx(), "template": TemplateObj, "required": Choice([], ["a"], ["a", "b"], ["b", "zz"])},
+    raises=[],
+    ensures={
+        # one case per required property: exactly that property is missing, everything else is the valid template, and the case says which one
+        "one_case_per_required_property": "length(result) == length(required) and all(any(g.parameter == r for g in result) for r in required)",
+        "exactly_the_named_property_is_missing": "all(g.parameter not in g.value and length(g.value) == length([k for k in template if k != g.parameter]) and "
+                                                 "all(k in g.value and g.value[k] is template[k] for k in template if k != g.parameter) for g in result)",
+        "described_and_labelled_as_what_it_is": "all(g.generation_mode.name == 'NEGATIVE' and g.description == 'Missing required property: ' + g.parameter for g in result)",
+        "template_untouched": "length(template) == old(length(template))",
+    },
+    bounded_note="templates with up to 3 properties, up to 2 required names",
+)
+
+
+def _sub_values(it, env):
+    """cover_schema_iter on a sub-schema in negative mode: 0..2 invalid values (own contracts above)."""
+    from pyvc.values import VGen
+
+    items = ListOf(Obj(COV + "GeneratedValue", value=Opq("Value"), generation_mode=EnumOf(GM, ["NEGATIVE"]), description=Str, parameter=NoneT, location=NoneT), [0, 1, 2], widen=False).make(it, it.path.fresh("sub"))
+    it.ghost["sub_values"] = it.ghost["sub_values"] + [(env["schema"], x) for x in items]
+    it.ghost["sub_modes"] = it.ghost["sub_modes"] + [[m.fields["name"] for m in env["ctx"].fields["generation_modes"]]]
+    return VGen(items)
+
+
+_csi = R.contracts[COV + "cover_schema_iter"]
+_csi_returns_before = _csi.returns
+
+
+def _csi_dispatch(it, env):
+    if getattr(it.top_contract, "target", "").endswith(("_negative_properties", "_negative_items")):
+        return _sub_values(it, env)
+    return _csi_returns_before(it, env)
+
+
+_csi.returns = _csi_dispatch
+R.contract(
+    COV + "_negative_properties",
+    prop="C03",
+    args={"ctx": Obj(COV + "CoverageContext", location=Str, generation_modes=Modes(), path=_FreshList()), "template": TemplateObj,
+          "properties": DictOf(optional={"a": Opq("SubSchema"), "b": Opq("SubSchema")})},
+    ghost={"sub_values": [], "sub_modes": []},
+    raises=[],
+    ensures={
+        # each case is the valid template with ONE property replaced by an invalid value of that property's own schema - whatever modes the caller had, the values are asked for in negative mode
+        "one_case_per_invalid_value_of_each_property": "length(result) == length(ghost('sub_values')) and all(any(g.parameter == k and k in g.value and g.value[k] is x.value and properties[k] is sc "
+                                                       "for k in properties) for g, (sc, x) in zip(result, ghost('sub_values')))",
+        "the_rest_of_the_object_is_the_valid_template": "all(all(k in g.value and g.value[k] is template[k] for k in template if k != g.parameter) and "
+                                                        "length(g.value) == length([k for k in template if k != g.parameter]) + 1 for g in result)",
+        "sub_values_generated_in_negative_mode_only": "all(m == ['NEGATIVE'] for m in ghost('sub_modes'))",
+        "labelled_negative": "all(g.generation_mode.name == 'NEGATIVE' for g in result)",
+        "path_restored": "length(ctx.path) == 0",
+    },
+    bounded_note="up to 2 properties with up to 2 invalid values each",
+    replayable=False,
+)
+R.contract(
+    COV + "_negative_items",
+    prop="C03",
+    args={"ctx": Obj(COV + "CoverageContext", location=Str, generation_modes=Modes(), path=_FreshList()), "schema": Opq("SubSchema")},
+    ghost={"sub_values": [], "sub_modes": []},
+    raises=[],
+    ensures={
+        "one_array_per_invalid_item_holding_just_that_item": "length(result) == length(ghost('sub_values')) and all(length(g.value) == 1 and g.value[0] is x.value and sc is schema for g, (sc, x) in zip(result, ghost('sub_values')))",
+        "items_generated_in_negative_mode_only": "all(m == ['NEGATIVE'] for m in ghost('sub_modes'))",
+        "labelled_negative": "all(g.generation_mode.name == 'NEGATIVE' for g in result)",
+    },
+    bounded_note="up to 2 invalid item values",
+    replayable=False,
+)
+def _conjuncts(it, schema):
+    """The conjuncts of a JSON Schema object: the keywords written next to `allOf` (as one schema) and every member of `allOf`."""
+    rest = {k: v for k, v in schema.items() if k != "allOf"}
+    return ([rest] if rest else []) + list(schema.get("allOf", []))
+
+
+R.spec_funcs["conjuncts"] = _conjuncts
+R.contract(
+    COV + "_with_negated_key",
+    prop="C03",
+    args={"schema": DictOf(optional={"type": Const("integer"), "multipleOf": Int, "minimum": Int}), "key": Const("multipleOf"), "value": Int},
+    raises=[],
+    ensures={
+        # the schema asked of the generator: everything of the original EXCEPT the keyword, AND the negation of exactly that keyword - so the value violates it "in the way its description says"
+        # (stated over the conjuncts of the result, not its spelling: `{"allOf": [A, B]}`, `{"allOf": [A], **B}` ... mean the same)
+        "all_other_keywords_kept_and_only_the_keyword_negated": "length(conjuncts(result)) == 2 and any(c == {'not': {key: value}} for c in conjuncts(result)) and "
+                                                                "any(c == {k: schema[k] for k in schema if k != key} for c in conjuncts(result))",
+    },
+)
+
 LEVEL_TEXT = ("Deductive: the numeric / length / item-count boundary generators are verified against 'conforms to the declared schema' for ALL integer bounds "
               "(multipleOf clauses for a finite set of divisors, labelled bounded); the case-level label rule is a postcondition on every case yielded by _iter_coverage_cases.")
 LEVEL_NOTE = "Trusted: E1 (values generated from a schema are valid for it), floats as reals, pyvc semantics (E9)."
